@@ -22,7 +22,7 @@ func init() {
 	register(&mon.Prop{
 		ID:    "C14",
 		Level: "exploration",
-		Rule: "selector texts: (a) rendered from random segment ASTs, (b) those mutated by character insert/delete/replace over {. [ ] \" ? : a 1 - \\ space}, every prefix and suffix, (c) exhaustive: all strings of length <=5 (thorough <=6) over {. [ ] \" ? : a 1 -}. For every accepted text s: String() must re-parse, to the same segments (exported accessors) and the same Select results on a data corpus; against the independent parser R-selparse: where it accepts s the real segments must mean the same (and Select must agree with the reference interpreter), where it rejects s and String() != s a malformed part was silently dropped. " +
+		Rule: "selector texts: (a) rendered from random segment ASTs, (b) those mutated by character insert/delete/replace over {. [ ] \" ? : a 1 - \\ space}, every prefix and suffix, (c) exhaustive: all strings of length <=5 (thorough <=6) over {. [ ] \" ? : a 1 -} and all bracket bodies .[body] of length <=5 (<=6) over {1 - : a + \" space 0}. For every accepted text s: String() must re-parse, to the same segments (exported accessors) and the same Select results on a data corpus; against the independent parser R-selparse: where it accepts s the real segments must mean the same (and Select must agree with the reference interpreter), where it rejects s, either String() != s (a malformed part was silently dropped) or the segments read through the accessors must render back to the whole text (else part of the input influences nothing). " +
 			"policies: ASTs of every statement kind rendered to IPLD and to DAG-JSON text plus structure-mutated IPLD (wrong arity, wrong kinds, unknown operators, extra elements): FromIPLD(n).ToIPLD() deep-equal to n modulo selector normalisation; constructor-built policies keep Match/PartialMatch on a data corpus after an IPLD round trip. " +
 			"non-trivial = accepted selector text with >=2 characters / accepted policy with >=1 statement; distinct = the text / the policy.",
 		Assumptions: []string{
@@ -83,7 +83,7 @@ func realSegs(sel selector.Selector) ref.Sel {
 			}
 			out = append(out, s)
 		case g.Field() != "" || strings.HasPrefix(strings.TrimRight(g.String(), "?"), `[""`):
-			out = append(out, ref.Seg{Kind: ref.SField, Name: g.Field(), Opt: g.Optional()})
+			out = append(out, ref.Seg{Kind: ref.SField, Name: g.Field(), Opt: g.Optional(), Quoted: strings.HasPrefix(g.String(), "[")})
 		default:
 			out = append(out, ref.Seg{Kind: ref.SIndex, Idx: int64(g.Index()), Opt: g.Optional()})
 		}
@@ -232,8 +232,18 @@ func c14Selector(w *mon.W, s string, corpus *c14Corpus, origin string) {
 	} else if s2 != s {
 		w.Violate("sel/malformed-part-dropped/"+c14Shape(s), fmt.Sprintf("Parse(%q) succeeds although the text is malformed, and prints as %q: part of the input was silently dropped", s, s2), c)
 	} else {
-		w.Count("accepted-outside-model-grammar-but-stable(not judged)", 1)
-		w.Note("outside-grammar-example/"+c14Shape(s), s)
+		// accepted although the grammar rejects it, and printed back verbatim: every part of the
+		// text must at least be reflected in the segments it was parsed to. Render the segments
+		// (as read through the accessors) and compare with the text, runs of '?' collapsed.
+		t := rs.Text()
+		if collapseQ(t) != collapseQ(s) {
+			c["segments"] = fmt.Sprint(rs)
+			c["segments_rendered"] = t
+			w.Violate("sel/text-not-reflected-in-segments/"+c14Shape(s), fmt.Sprintf("Parse(%q) succeeds although the text is malformed; its segments %v render as %q: part of the input influences nothing", s, rs, t), c)
+		} else {
+			w.Count("accepted-outside-model-grammar-but-fully-reflected(not judged)", 1)
+			w.Note("outside-grammar-example/"+c14Shape(s), s)
+		}
 	}
 	if w.WantSample() && len(sel) >= 3 && s2 != s {
 		w.Sample(c)
@@ -427,6 +437,28 @@ func runC14(w *mon.W) {
 	for n := 1; n <= w.Pick(5, 6); n++ {
 		rec(nil, n)
 	}
+	// exhaustive bracket bodies: .[<body>] for every body of length <=5 (thorough <=6) over
+	// the characters that can occur between brackets
+	bodyAlpha := `1-:a+" 0`
+	var recb func(cur []byte, n int)
+	recb = func(cur []byte, n int) {
+		if len(cur) == n {
+			idx++
+			if w.Mine(idx) {
+				c14Selector(w, ".["+string(cur)+"]", corpus, "exhaustive")
+				if idx%5 == 0 {
+					c14Selector(w, ".a["+string(cur)+"]?.b", corpus, "exhaustive")
+				}
+			}
+			return
+		}
+		for i := 0; i < len(bodyAlpha); i++ {
+			recb(append(cur, bodyAlpha[i]), n)
+		}
+	}
+	for n := 0; n <= w.Pick(5, 6); n++ {
+		recb(nil, n)
+	}
 	for _, s := range []string{"", "a", "[0]", `"`, "?", "a.b", " .a"} {
 		c14Selector(w, s, corpus, "exhaustive")
 	}
@@ -550,4 +582,11 @@ func runC14(w *mon.W) {
 			}
 		}
 	}
+}
+
+func collapseQ(s string) string {
+	for strings.Contains(s, "??") {
+		s = strings.ReplaceAll(s, "??", "?")
+	}
+	return s
 }
